@@ -74,18 +74,22 @@ Theorem sort_fixed_point_sorted : forall Q, qsorts_ok Q -> forall t mds gds,
   in_sort_order t -> no_key_ties t -> table_sort Q None t = Ok t.
 Proof. exact sort_fixed_point. Qed.
 
-(* partial sorts.  tsk_table_sorter_sort_edges with start = k on an edge table WITHOUT metadata:
-   rows before k untouched, rows from k on a sorted permutation of the old ones, metadata
-   columns unchanged.  (With edge metadata this is false: sort_edge_start_metadata_refuted.) *)
-Theorem sort_edge_start_prefix_untouched : forall Q, qsorts_ok Q -> forall t start,
-  t_emd t = [] -> t_eoff t = repeat 0 (S (length (t_edges t))) ->
-  0 <= start <= zlen (t_edges t) ->
+(* partial sorts.  tsk_table_sorter_sort_edges with start = k (any 0 <= k <= len(edges)), edge
+   metadata included: the first k full rows (fixed columns AND metadata bytes) are untouched, the
+   rows from k on are a permutation of the old ones as full rows, sorted by the edge key, and the
+   ragged columns stay well formed *)
+Theorem sort_edge_start_prefix_untouched : forall Q, qsorts_ok Q -> forall t mds start,
+  edges_wf t mds -> 0 <= start <= zlen (t_edges t) ->
   (forall e, In e (t_edges t) -> 0 <= e_parent e < zlen (t_nodes t)) ->
-  exists es',
-    sort_edges Q start t = Ok (set_edges t (firstn (Z.to_nat start) (t_edges t) ++ es') [] (t_eoff t)) /\
-    Permutation (skipn (Z.to_nat start) (t_edges t)) es' /\
+  let s := Z.to_nat start in
+  exists es' mds',
+    sort_edges Q start t
+      = Ok (set_edges t (firstn s (t_edges t) ++ es') (concat (firstn s mds ++ mds'))
+                      (offsets_of 0 (firstn s mds ++ mds'))) /\
+    length mds' = length es' /\
+    Permutation (combine (skipn s (t_edges t)) (skipn s mds)) (combine es' mds') /\
     Sorted (edge_le (map n_time (t_nodes t))) es'.
-Proof. exact sort_edges_start_no_metadata. Qed.
+Proof. exact sort_edges_start_spec. Qed.
 
 (* sort(edge_start, site_start = len(sites), mutation_start = len(mutations)) leaves sites,
    mutations, nodes, individuals, populations untouched for every qsort and every edge_start *)
@@ -262,14 +266,18 @@ Theorem canonicalise_mutation_tie_refuted :
                 t_muts oa <> t_muts ob.
 Proof. exact canonicalise_mutation_tie_refuted_proof. Qed.
 
-(* sort(edge_start = 1) on an edge table with metadata: the untouched first row loses its
-   metadata and the last row receives bytes of other rows *)
-Theorem sort_edge_start_metadata_refuted :
+(* record of the repaired defect (/repo bd01493 "fix: sort with edge_start > 0 keeps the metadata
+   of the unsorted prefix"): the PINNED copy-back ([sort_edges_pinned], restart at offset 0)
+   made sort(edge_start = 1) drop the untouched first row's metadata and hand the last row bytes
+   of other rows; the current function (Model.sort_edges) keeps every row's metadata *)
+Theorem sort_edge_start_metadata_pinned_refuted :
   check_refs es_tables = true /\ edges_wf es_tables es_mds /\
-  exists t', py_sort Qmerge 1 0 0 es_tables = Ok t' /\
-    edge_rows es_tables = Ok [(mkE 0 10 2 0, [97; 97; 97; 97]); (mkE 0 10 3 2, [99; 99]); (mkE 0 10 2 1, [98])] /\
-    edge_rows t' = Ok [(mkE 0 10 2 0, []); (mkE 0 10 2 1, [98]); (mkE 0 10 3 2, [99; 99; 97; 99; 99; 98])].
-Proof. exact sort_edge_start_metadata_refuted_proof. Qed.
+  edge_rows es_tables = Ok [(mkE 0 10 2 0, [97; 97; 97; 97]); (mkE 0 10 3 2, [99; 99]); (mkE 0 10 2 1, [98])] /\
+  (exists t', sort_edges_pinned Qmerge 1 es_tables = Ok t' /\
+     edge_rows t' = Ok [(mkE 0 10 2 0, []); (mkE 0 10 2 1, [98]); (mkE 0 10 3 2, [99; 99; 97; 99; 99; 98])]) /\
+  (exists t', py_sort Qmerge 1 0 0 es_tables = Ok t' /\
+     edge_rows t' = Ok [(mkE 0 10 2 0, [97; 97; 97; 97]); (mkE 0 10 2 1, [98]); (mkE 0 10 3 2, [99; 99])]).
+Proof. exact sort_edge_start_metadata_pinned_refuted_proof. Qed.
 
 (* sort + deduplicate_sites + sort + build_index + compute_mutation_parents fails on a
    logically consistent collection whose rows list a child mutation before its parent
